@@ -414,6 +414,15 @@ class Interp:
         if name in self.const_cache:
             return copy_value(self.const_cache[name])
         f = self.lookup_const(name, fr)
+        if f is not None and len(self.prog.const_multi.get(f.name, ())) > 1 and fr is not None and fr.func is not None and 'promoted' not in name:
+            # several items of this name (macro-generated impls): a function-local const is printed right after the function using it
+            cands = sorted(self.prog.const_multi[f.name], key=lambda g: g.order)
+            after = [g for g in cands if g.order > fr.func.order]
+            if not after:
+                raise Unsupported('ambiguous constant %s' % name)
+            f = after[0]
+            v = self.const(f.const_value[6:] if f.const_value.startswith('const ') else f.const_value, fr) if f.const_value is not None else self.run(f, [], {})
+            return copy_value(v)
         if f is None:
             v = builtin_const(name)
             if v is None:
@@ -443,7 +452,9 @@ class Interp:
         if name in P:
             return P[name]
         # promoted of the current function: `fname::promoted[N]`
-        segs = name.split('::')
+        segs = [x for x in name.split('::') if x]
+        if not segs:
+            return None
         hits = []
         for k, f in P.items():
             ks = strip_generics_text(k).split('::')
